@@ -452,6 +452,16 @@ class FuncLowerer:
             abort('init list shorter than record', e)
         return out
 
+    def _has_bind_temporary(self, e):
+        while e.get('kind') in ('ExprWithCleanups', 'CXXBindTemporaryExpr', 'ConstantExpr', 'FullExpr', 'MaterializeTemporaryExpr') or \
+                (e.get('kind') in ('ImplicitCastExpr', 'CXXFunctionalCastExpr', 'CXXStaticCastExpr') and e.get('castKind') in ('NoOp', 'ConstructorConversion')):
+            if e.get('kind') == 'CXXBindTemporaryExpr':
+                return True
+            if not e.get('inner'):
+                break
+            e = e['inner'][0]
+        return False
+
     def strip_wrappers(self, e):
         while e.get('kind') in ('ExprWithCleanups', 'CXXBindTemporaryExpr', 'ConstantExpr', 'FullExpr') or \
                 (e.get('kind') == 'MaterializeTemporaryExpr') or \
@@ -930,6 +940,7 @@ class FuncLowerer:
         if getattr(self, '_lifetime_extended', False):
             abort('lifetime-extended temporary with a non-trivial destructor', e)
         t = self.fresh_tmp(ty)
+        self._last_bind_tmp = t
         self.pending_dtors.append(dt.replace('&__TMP__', '&' + t) + ';')
         si = self.strip_wrappers(inner)
         if si.get('kind') in ('CXXConstructExpr', 'CXXTemporaryObjectExpr'):
@@ -962,9 +973,28 @@ class FuncLowerer:
         si = self.strip_wrappers(inner)
         if ty[0] == 'rec' and si.get('kind') in ('CXXConstructExpr', 'CXXTemporaryObjectExpr'):
             t = self.fresh_tmp(ty)
+            if self._has_bind_temporary(inner):
+                # strip_wrappers went through the CXXBindTemporaryExpr: the temporary still has to be destroyed at the end
+                # of the full-expression (storage duration 'full expression'; lifetime-extended ones abort)
+                dt = self.dtor_call(ty[1], '&' + t, e)
+                if dt is not None:
+                    if e.get('storageDuration') not in (None, 'full expression') or e.get('extendingDecl'):
+                        abort('lifetime-extended temporary with a non-trivial destructor', e)
+                    self.pending_dtors.append(dt + ';')
             return '(*(%s, &%s))' % (self.construct_into('&' + t, ty, si), t)
         if ty[0] == 'rec' and si.get('kind') == 'LambdaExpr':
             return self.e_LambdaExpr(si)
+        b = inner
+        while b.get('kind') in ('ExprWithCleanups', 'FullExpr') or (b.get('kind') == 'ImplicitCastExpr' and b.get('castKind') == 'NoOp'):
+            b = b['inner'][0]
+        if ty[0] == 'rec' and b.get('kind') == 'CXXBindTemporaryExpr':
+            # the bound temporary *is* the materialised object: no second copy (a copy would be destroyed in its place)
+            self._last_bind_tmp = None
+            x = self.e_CXXBindTemporaryExpr(b)
+            if self._last_bind_tmp is not None:
+                return '(*(%s, &%s))' % (x, self._last_bind_tmp)
+            t = self.fresh_tmp(ty)
+            return '(*(%s = %s, &%s))' % (t, x, t)
         t = self.fresh_tmp(ty)
         return '(*(%s = %s, &%s))' % (t, self.expr(inner), t)
 
@@ -1613,7 +1643,8 @@ class FuncLowerer:
             t = u.type_of(a)
             if t[0] == 'arr':
                 t = ('ptr', t[1])
-            if t[0] == 'rec' and a.get('valueCategory') == 'lvalue':
+            if t[0] == 'rec' and a.get('valueCategory') in ('lvalue', 'xvalue'):
+                # lvalue or xvalue (std::move(x), implicit move in return, materialised temporary): an existing object
                 ats.append(('ptr', t))
                 avs.append(self.addr(a))
             else:
@@ -1637,6 +1668,11 @@ class FuncLowerer:
         cn = sanitize(u.alias(objt[1])) + '_' + sanitize(name)
         ret = u.type_of(e)
         is_lv = e.get('valueCategory') == 'lvalue'
+        given = [a for a in args if a.get('kind') != 'CXXDefaultArgExpr']
+        if len(given) != len(args):
+            # defaulted arguments of a function outside the AST have no expression here: the stub is the n-argument form
+            cn += '_%dargs' % len(given)
+            args = given
         ats, avs = self.outside_args(args)
         self.outside_proto(cn, ('ptr', ret) if is_lv else ret, [('ptr', objt)] + ats, objt[1] + '::' + name, e)
         objp = self.expr(obj) if is_arrow else addr_of(self.expr(obj))
@@ -1669,8 +1705,9 @@ class FuncLowerer:
             ret = u.type_of(e)
             is_lv = e.get('valueCategory') == 'lvalue'
             rest = args[1:]
-            self.outside_proto(cn, ('ptr', ret) if is_lv else ret, [('ptr', a0t)] + [u.type_of(a) for a in rest], a0t[1] + '::' + name, e)
-            call = '%s(%s)' % (cn, ', '.join([self.addr(args[0])] + [self.expr(a) for a in rest]))
+            ats, avs = self.outside_args(rest)
+            self.outside_proto(cn, ('ptr', ret) if is_lv else ret, [('ptr', a0t)] + ats, a0t[1] + '::' + name, e)
+            call = '%s(%s)' % (cn, ', '.join([self.addr(args[0])] + avs))
             return '(*%s)' % call if is_lv else call
         if decl is None:
             h = getattr(self.u.cfg, 'operator_call_hook', None)
